@@ -374,10 +374,20 @@ Definition alias_code (sid : Z) (tbl : list pkt) (a : aobs) : nat :=
    by FEC repair packets only *)
 Definition inj_code (sid : Z) (c : cfg) (tbl : list pkt) (o : iobs) : nat :=
   let '(_, qi, ocalls) := o in
-  match map (tb tbl) ocalls with
-  | [] => (* out of scope (the header-extension member below refuses it): nothing is sent *)
-          if in_scope_w c (tb tbl qi) then 91%nat else 0%nat
-  | q' :: rest => if negb (upto_tccb sid (tb tbl qi) q') then 92%nat
+  let q := tb tbl qi in
+  let calls := map (tb tbl) ocalls in
+  if negb (in_scope_w c q) then
+    (* out of scope, as for application writes: forwarded intact, or refused by the member that
+       cannot take it (the header-extension member) - then nothing but FEC repair packets made
+       by encoders above that member is sent *)
+    match filter (fun x => negb (is_fec c x)) calls with
+    | [] => 0%nat
+    | q' :: _ => if upto_tccb sid q q' then 0%nat else 92%nat
+    end
+  else
+  match calls with
+  | [] => 91%nat
+  | q' :: rest => if negb (upto_tccb sid q q') then 92%nat
                   else if negb (forallb (is_fec c) rest) then 93%nat else 0%nat
   end.
 
